@@ -37,6 +37,7 @@ pub fn enumerate(prop: &str, tier: &str, f: &mut dyn FnMut(Case)) {
         "C14" => {
             crate::gen3::cmp(lv, f);
             crate::gen_scale::cmp(lv, f);
+            crate::gen_scale::cmp_chain(lv, f);
         }
         "C16" => {
             crate::gen3::append(lv, f);
